@@ -324,6 +324,11 @@ impl Ev {
         if !violations.is_empty() {
             return 1;
         }
+        let hp = crate::util::harness_panics();
+        if hp > 0 {
+            println!("INCONCLUSIVE property={} {} case(s) abandoned after a harness error (see the panic messages above)", self.id, hp);
+            return 2;
+        }
         if !inconclusive.is_empty() {
             for w in inconclusive.iter() {
                 println!("INCONCLUSIVE property={} {}", self.id, w);
